@@ -84,14 +84,14 @@ def declare(reg):
     T = dict(trusted=True)
     reg.specfn("hdr", "m: opaque:EmailMessage, name: str", "str", doc="A-EMAIL: value of a header field")
     reg.specfn("has_hdr", "m: opaque:EmailMessage, name: str", "bool", doc="A-EMAIL")
-    reg.specfn("parsed", "s: str", "opaque:datetime", doc="utils.parsedate: RFC 2822 date-time text -> aware datetime")
-    reg.specfn("written_day", "d: opaque:datetime", "int", doc="datetime.date(): the calendar day of the date-time in its own zone (as an ordinal)")
+    reg.specfn("parsed", "s: str", "opaque:adatetime", doc="utils.parsedate: RFC 2822 date-time text -> aware datetime")
+    reg.specfn("written_day", "d: opaque:adatetime", "int", doc="datetime.date(): the calendar day of the date-time in its own zone (as an ordinal)")
     reg.contract("<email>", "EmailMessage.__contains__", params={"self": "opaque:EmailMessage", "name": "str"}, ret="bool", ensures={"is": "result == has_hdr(self, name)"}, **T, note="A-EMAIL")
     reg.contract("<email>", "EmailMessage.__getitem__", params={"self": "opaque:EmailMessage", "name": "str"}, ret="str", ensures={"is": "result == hdr(self, name)"}, **T, note="A-EMAIL")
-    reg.contract("asimap/utils.py", "parsedate", params={"date_time_str": "str"}, ret="opaque:datetime", ensures={"is": "result == parsed(date_time_str)"}, **T, note="A-EMAIL: email.utils.parsedate_to_datetime")
-    reg.contract("<datetime>", "datetime.date", params={"self": "opaque:datetime"}, ret="int", ensures={"is": "result == written_day(self)"}, **T,
+    reg.contract("asimap/utils.py", "parsedate", params={"date_time_str": "str"}, ret="opaque:adatetime", ensures={"is": "result == parsed(date_time_str)"}, **T, note="A-EMAIL: email.utils.parsedate_to_datetime")
+    reg.contract("<datetime>", "adatetime.date", params={"self": "opaque:adatetime"}, ret="int", ensures={"is": "result == written_day(self)"}, **T,
                  note="stdlib; dates are compared as day ordinals (the parser hands SearchArgs.date as a date)")
-    reg.contract("<datetime>", "datetime.astimezone", params={"self": "opaque:datetime", "tz": "opaque:tzinfo"}, ret="opaque:datetime", **T,
+    reg.contract("<datetime>", "adatetime.astimezone", params={"self": "opaque:adatetime", "tz": "opaque:tzinfo"}, ret="opaque:adatetime", **T,
                  note="stdlib: the same instant in another zone (its calendar day may differ: no equation with written_day)")
     reg.opaque_names["UTC"] = "opaque:tzinfo"
     MSG = "msg_of(self.ctx.mailbox, self.ctx.msg_key)"
@@ -101,8 +101,8 @@ def declare(reg):
             ensures={"date-key": f"result == (has_hdr({MSG}, 'date') and written_day(parsed(hdr({MSG}, 'date'))) {op} self.args['date'])"},
             modifies=["SearchContext._msg"], props=["C14"],
         )
-    reg.specfn("idate", "m: ref:Mailbox, k: int", "opaque:datetime", doc="internal date: the message file's mtime as an aware UTC datetime (SearchContext.internal_date)")
-    reg.contract(P, "SearchContext.internal_date", params={"self": "ref:SearchContext"}, ret="opaque:datetime",
+    reg.specfn("idate", "m: ref:Mailbox, k: int", "opaque:adatetime", doc="internal date: the message file's mtime as an aware UTC datetime (SearchContext.internal_date)")
+    reg.contract(P, "SearchContext.internal_date", params={"self": "ref:SearchContext"}, ret="opaque:adatetime",
                  ensures={"is": "result == idate(self.mailbox, self.msg_key)"}, modifies=["self._internal_date"], **T, note="A-OS: file mtime, cached")
     for fn, op in (("_match_before", "<"), ("_match_on", "=="), ("_match_since", ">=")):
         reg.contract(
